@@ -5,4 +5,8 @@ cd "$(dirname "$0")"
 if ! /venv/bin/python -c "import hypothesis" 2>/dev/null; then
   /venv/bin/pip install --no-index --find-links /opt/veriftools/wheels --target ./.deps hypothesis
 fi
+# optional: atheris for the coverage-guided phase of the thorough tier (skipped, and reported as skipped, if absent)
+if ! /venv/bin/python -c "import sys; sys.path.insert(0,'.deps'); import atheris" 2>/dev/null; then
+  /venv/bin/pip install --no-index --find-links /opt/veriftools/wheels --target ./.deps atheris >/dev/null 2>&1 || echo "atheris not installed (coverage-guided phase will be skipped)"
+fi
 /venv/bin/python -c "import sys; sys.path.insert(0,'.deps'); import hypothesis, numpy, scipy; print('setup ok', hypothesis.__version__)"
